@@ -41,6 +41,8 @@ def family():
         rq["headers"][i[0]], rq["headers"][i[1]] = rq["headers"][i[1]], rq["headers"][i[0]]
     no("pre:alt-repeated-swapped", "values of a repeated signed header swapped after signing",
        A.v4_presigned(extra_headers=[("x-amz-meta-tag", "alpha"), ("x-amz-meta-tag", "zulu")], mutate=swap_rep))
+    ok("pre:query-order-encoded", "query names whose order differs before and after URI-encoding (the specification sorts the ENCODED names)",
+       A.v4_presigned("GET", "/bkt", pairs=[("a1", "x"), ("a:b", "y"), ("kz", ""), ("k|", "")]))
     ok("pre:skew-future-10min", "signing time 10 minutes in the future (inside the 15 minute skew)", A.v4_presigned(date_delta=600))
     ok("pre:near-expiry", "signed 50 minutes ago, expires after 1 hour", A.v4_presigned(date_delta=-3000, expires=3600))
     no("pre:expired", "signed 2 hours ago, expires after 1 minute", A.v4_presigned(date_delta=-7200, expires=60))
